@@ -2,11 +2,13 @@ package bebop
 
 import (
 	"bytes"
+	"cmp"
 	"fmt"
 	"io"
 	"os"
 	"path"
 	"path/filepath"
+	"sort"
 	"strconv"
 	"strings"
 
@@ -156,7 +158,8 @@ func (f File) Validate() error {
 		}
 		customTypes[msg.Name] = struct{}{}
 		msgNames := map[string]struct{}{}
-		for _, fd := range msg.Fields {
+		for _, idx := range sortedKeys(msg.Fields) {
+			fd := msg.Fields[idx]
 			if _, ok := msgNames[fd.Name]; ok {
 				return fmt.Errorf("message %s has duplicate field name %s", msg.Name, fd.Name)
 			}
@@ -183,7 +186,8 @@ func (f File) Validate() error {
 		}
 		customTypes[un.Name] = struct{}{}
 		unionNames := map[string]struct{}{}
-		for _, fd := range un.Fields {
+		for _, idx := range sortedKeys(un.Fields) {
+			fd := un.Fields[idx]
 			if _, ok := unionNames[fd.name()]; ok {
 				return fmt.Errorf("union %s has duplicate field name %s", un.Name, fd.name())
 			}
@@ -200,7 +204,8 @@ func (f File) Validate() error {
 	// field names are held to the same rules as those of a top level definition.
 	branchNames := map[string]struct{}{}
 	for _, un := range f.Unions {
-		for _, ufd := range un.Fields {
+		for _, idx := range sortedKeys(un.Fields) {
+			ufd := un.Fields[idx]
 			name := ufd.name()
 			if un.Namespace == "" {
 				if _, ok := primitiveTypes[name]; ok {
@@ -235,7 +240,8 @@ func (f File) Validate() error {
 		}
 	}
 	for _, msg := range f.Messages {
-		for _, fd := range msg.Fields {
+		for _, idx := range sortedKeys(msg.Fields) {
+			fd := msg.Fields[idx]
 			if err := typeDefined(fd.FieldType, allTypes); err != nil {
 				return err
 			}
@@ -275,13 +281,25 @@ func (f File) Validate() error {
 			structTypeUsage[stName] = usage
 		}
 	}
-	for stName, usage := range structTypeUsage {
+	for _, stName := range sortedKeys(structTypeUsage) {
+		usage := structTypeUsage[stName]
 		if usage[stName] {
 			return fmt.Errorf("struct %s recursively includes itself as a required field", stName)
 		}
 	}
 
 	return nil
+}
+
+// sortedKeys returns the keys of m in increasing order. Validate walks its maps in this order so
+// that which of several errors it reports does not change from one call to the next.
+func sortedKeys[K cmp.Ordered, V any](m map[K]V) []K {
+	keys := make([]K, 0, len(m))
+	for k := range m {
+		keys = append(keys, k)
+	}
+	sort.Slice(keys, func(i, j int) bool { return keys[i] < keys[j] })
+	return keys
 }
 
 func typeDefined(ft FieldType, allTypes map[string]struct{}) error {
